@@ -320,6 +320,7 @@ impl ZmtpUringHandler {
             target_endpoint_uri: self.worker_io_config.target_endpoint_uri.clone(),
             connection_iface: self.worker_io_config.connection_iface.clone(),
             peer_identity,
+            peer_socket_type,
             fd: self.fd,
           };
           if let Err(e) = self.worker_io_config.socket_mailbox.try_send(cmd) {
